@@ -106,7 +106,7 @@ def models_draw(draw):
 
 
 PROF = gen.Profile(kinds=["region"] * 6 + ["state", "flush", "kernel"], models=models_draw,
-                   max_looms=1, max_procs=1, max_threads=2, max_cpus=2, steps=(6, 70),
+                   max_looms=2, max_procs=2, max_threads=2, max_cpus=2, steps=(6, 70),
                    modes=("legal", "legal", "illegal", "illegal", "noend"), lint=None,
                    wild_kinds=["region", "region", "gated", "gated", "unknown"])
 
